@@ -782,7 +782,7 @@ class Result(object):
 
 def cfg_name(cfg):
     keys = ('module', 'alg', 'maxsize', 'maxsize_pos', 'purge', 'keymap', 'backend', 'init',
-            'ignore', 'tol', 'deep', 'result', 'fn', 'args', 'nargs', 'narrow', 'twin', 'scale')
+            'ignore', 'tol', 'deep', 'result', 'fn', 'args', 'nargs', 'narrow', 'twin', 'scale', 'longuse')
     return ' '.join('%s=%s' % (k, cfg[k]) for k in keys if k in cfg and cfg[k] not in (None, False))
 
 
